@@ -384,6 +384,52 @@ class lodict(odict):
 
         super(lodict, self).update(d)
 
+    def create(self, *pa, **kwa):
+        """
+        Create items in this lodict but only if lowercased key not already existent
+        """
+        for a in pa:
+            if hasattr(a, 'get'): #positional arg is dictionary
+                for k in a:
+                    if k not in self:
+                        self[k] = a[k]
+            else: #positional arg is sequence of duples (k,v)
+                for k, v in a:
+                    if k not in self:
+                        self[k] = v
+
+        for k in kwa:
+            if k not in self:
+                self[k] = kwa[k]
+
+    def sift(self, fields=None):
+        """
+        Make field names lowercase then sift
+        """
+        if fields is None:
+            return self.copy()
+        return super(lodict, self).sift([key.lower() for key in fields])
+
+    def insert(self, index, key, val):
+        """
+        Make key lowercase then insert
+        """
+        super(lodict, self).insert(index, key.lower(), val)
+
+    def pop(self, key, *default):
+        """
+        Make key lowercase then pop
+        """
+        return super(lodict, self).pop(key.lower(), *default)
+
+    def reorder(self, other):
+        """
+        Make keys of other lowercase then reorder
+        """
+        if not isinstance(other, odict):
+            raise ValueError('other must be an odict')
+        super(lodict, self).reorder(lodict(other))
+
 
 
 
